@@ -23,6 +23,7 @@ fn main() {
     match argv[1].as_str() {
         "c14" => c14::gen(&args),
         "c15" => c15::gen(&args),
+        "c15s" => c15::replay(&args),
         "c16" => c16::gen(&args),
         "c17" => c17::gen(&args),
         "c18" => c18::gen(&args),
